@@ -215,6 +215,37 @@ impl C18Check {
                 compare(name, &key, &base_text, &base, &var_text, var, ctx);
             }
         }
+        // 1b. blanks and tabs on the blank line itself
+        for at in 0..toks.len() {
+            if !matches!(&toks[at], Tok::Op(o) if o.text == "\n\n") {
+                continue;
+            }
+            for (name, filled) in [("blank-line-holding-a-space", "\n \n"), ("blank-line-holding-a-tab", "\n\t\n"), ("blank-line-holding-tab-and-spaces", "\n\t  \n"), ("blank-line-after-trailing-tab", "\t\n\n")] {
+                if !take(120) {
+                    continue;
+                }
+                let mut out = String::new();
+                for (i, t) in toks.iter().enumerate() {
+                    let is_ws_op = matches!(t, Tok::Op(o) if o.text == " " || o.text == "\n\n");
+                    if i > 0 {
+                        let p_ws = matches!(&toks[i - 1], Tok::Op(o) if o.text == " " || o.text == "\n\n");
+                        if !is_ws_op && !p_ws {
+                            out.push(' ');
+                        }
+                    }
+                    if i == at {
+                        out.push_str(filled);
+                    } else {
+                        out.push_str(&t.text());
+                    }
+                }
+                ctx.sub_evals += 1;
+                ctx.nontrivial(fnv(format!("{}#{}#{}", base_text, at, name).as_bytes()));
+                // no token-identity precondition here: that a blank line stays a separator whatever blanks it holds is the claim itself
+                let var = observe(&out, None, input_ids);
+                compare(name, "blank-line", &base_text, &base, &out, var, ctx);
+            }
+        }
         // 2. trailing white space / comment at the end and leading white space
         for (name, lead, trail) in [("trailing-spaces", "", "  "), ("trailing-tab-newline", "", "\t\n"), ("trailing-annotation", "", " @done"), ("leading-spaces", "  ", ""), ("leading-comment-line", "@@ header\n", "")] {
             if !take(60) {
@@ -348,7 +379,7 @@ impl Check for C18Check {
     }
     fn rule(&self) -> String {
         "Programs: every core-language AST with at most k nodes (k=3 quick, 4 thorough; the C01 enumerator) printed with single spaces, plus random larger ASTs. For each accepted program every single rewrite is applied at every position (random programs: a tape-chosen subset of positions): \
-         each gap between two tokens is replaced by no space / one space / several spaces / a tab / a line break / an annotation / a comment line (next to the list-space or blank-line operator only widening with blanks and tabs); trailing or leading white space, annotation or comment line; parentheses around one complete operand; a side-effect block with a constant body after one value. \
+         each gap between two tokens is replaced by no space / one space / several spaces / a tab / a line break / an annotation / a comment line (next to the list-space or blank-line operator only widening with blanks and tabs); each blank line additionally rewritten to hold a space, a tab, or tabs and spaces; trailing or leading white space, annotation or comment line; parentheses around one complete operand; a side-effect block with a constant body after one value. \
          A rewrite is applicable only if the lexer still produces the same significant tokens (otherwise counted, not judged) and is meaning-preserving by construction (not applied to a property name after `.`, to a same-kind list item, to an arm of an else chain, or around separators). \
          Oracle (metamorphic): the parse tree modulo Group nodes and side-effect blocks is unchanged and the final value on both data implementations and two inputs is unchanged. \
          Non-trivial = a gap rewrite between tokens of different classes; distinct = distinct (program, position, rewrite)."
